@@ -104,6 +104,11 @@ def _refused_case(w, src):
     if len(G["dims"][k0]) == 2:   # only one of the two grid dimensions
         d = G["dims"][k0][0]; s = G["shape"][k0][0]
         arrs.append({"dims": ["t", d], "shape": [2, s], "data": list(range(1, 2 * s + 1)), "dtype": "f8"})
+    # (first, a variable OF THE SAME NAME that is on a grid is flattened by the same convention object)
+    gd0 = G["dims"][k0]; gs0 = G["shape"][k0]
+    evs.append({"a": "Load", "arr": {"dims": list(gd0), "shape": list(gs0), "data": list(range(1, int(numpy.prod(gs0)) + 1)), "dtype": "f8"},
+                "lin": "", "kind": k0})
+    evs.append({"a": "Ravel", "name": "<default>"})
     for a in arrs:
         evs.append({"a": "Load", "arr": a, "lin": "", "kind": ""})
         evs.append({"a": "Ravel", "name": "<default>"})
@@ -142,6 +147,16 @@ def cases(tier: str, seed: int) -> list[dict]:
                         modes = ["axis", "negaxis", "dim"] + (["default"] if last else [])
                         for mode in (modes if tier == "thorough" else [rng.choice(modes)]):
                             out.append(_linear_case(w, kind, extras, perm, rng.choice(dtypes), "mc", mode))
+    # one convention object asked about variables of the SAME NAME on different grids, one after the other
+    for conv in ("shoc_standard", "arakawa", "ugrid"):
+        w = _base_world(conv, rng)
+        kinds = W.kinds_of(w)
+        if len(kinds) >= 2:
+            a = _wound_case(w, kinds[0], [("t", 2)], ["t"] + list(W.kind_dims(w, kinds[0])), "f8", "mc")
+            b = _wound_case(w, kinds[1], [("t", 2)], ["t"] + list(W.kind_dims(w, kinds[1])), "f8", "mc")
+            c = _wound_case(w, kinds[-1], [], list(W.kind_dims(w, kinds[-1])), "f8", "mc")
+            a["events"] = a["events"][:3] + b["events"][:5] + c["events"][:3] + a["events"][:3]
+            out.append(a)
     # a mesh that NAMES an edge dimension (optional attribute) which no variable uses: variables on no grid are still refused,
     # face and node variables still flatten
     m = W.mesh_from_squares([["Q", "A"]])
@@ -237,7 +252,7 @@ def execute(case: dict) -> dict:
         a = e["a"]
         if a == "Load":
             arr = e["arr"]
-            cur = xarray.DataArray(numpy.array(arr["data"], dtype=arr["dtype"]).reshape(arr["shape"]), dims=arr["dims"])
+            cur = xarray.DataArray(numpy.array(arr["data"], dtype=arr["dtype"]).reshape(arr["shape"]), dims=arr["dims"], name="v")
             lin_name = e["lin"] or None
         elif a in ("Ravel", "URavel"):
             name = None if e["name"] == "<default>" else e["name"]
